@@ -373,6 +373,17 @@ Definition spec_nfail (names : list (bytes * nat)) (ps : list purl) : nat :=
                      | (2 #name ok)                                RegisterEncoder   obs (0 cls (ekey..))
                      | (3 tk et #encoding lvl (purl..) (purl..) nw) Config.Build     obs (<kind-1 obs> (skey..) (ekey..))
                      | (4 which flags #prefix level)               Redirect          obs <kind-2 obs>
+   kind 6 the multi-destination writer under scripted destinations (registered test sinks "c19w://h/<j>"):
+      (6 mode cl len nd1 nd2 (step..))   mode 0 Open(nd1 paths) | 1 CombineWriteSyncers(nd1 sinks)
+                                              | 2 Config.Build(OutputPaths nd1, ErrorOutputPaths nd2; cl: caller annotation on)
+         step = (t (beh..nd1) (beh..nd2))   t = 0: one Write of len bytes / one Info entry; 1: one Sync
+         beh  = (n err serr)                during the step the destination answers every Write with (n, err) (n <= len;
+                                            for entries and error lines: 0 -> 0, len -> everything, else a short count)
+                                            and every Sync with serr
+      obs ((((w s)..nd1) ((w s)..nd2) n (d..)) ..)   per step: per destination the Writes received with the whole payload
+                                            (-1: a payload was damaged) and the Syncs received; the byte count returned
+                                            (0 for a Sync and for a logger); the destinations whose errors the returned error
+                                            (the "write error" line of a logger) consists of, in order (-1: a foreign error)
    blocked = (7): the operation (or the whole case) did not return within the harness's
    watchdog; in a history the observation list ends with it.  A registry read-back that
    does not return is (7) in place of the (key..) list.                                                    *)
@@ -704,6 +715,133 @@ Fixpoint spec_mix_ops (names : list (bytes * nat)) (encs : list (bytes * (nat * 
 Definition spec_mix (i o : sx) : bool :=
   negb (is_blocked o) && spec_mix_ops [] [] [s_file] [s_console; s_json] 2 (sx_l (sx_nth i 1)) (sx_l o).
 
+(* --- kind 6: the multi-destination writer under scripted destinations --- *)
+(* zapcore/write_syncer.go multiWriteSyncer.Write / Sync, NewMultiWriteSyncer, Lock and
+   writer.go CombineWriteSyncers, as used by Open and (through openSinks) by Config.Build;
+   zapcore/core.go ioCore.Write, zapcore/entry.go CheckedEntry.Write and logger.go
+   Logger.check as far as they write to the two combined writers of a built logger.
+   A destination is a registered test sink that answers every Write it receives during a
+   step with (n, err) and every Sync with serr, as the case scripts it; destinations
+   never panic.  Destinations are numbered in order of creation: those of Open /
+   OutputPaths from 0, those of ErrorOutputPaths after them. *)
+Record wbeh := mkW { w_n : nat; w_err : bool; w_serr : bool }.
+Inductive wev := WWrite (d : nat) | WSync (d : nat).
+(* what one call on a writer did: the calls that reached destinations (in order), the
+   byte count it returned, and the destinations whose errors make up the returned error
+   (multierr.Append keeps them in order; empty = nil) *)
+Record wres := mkWR { wr_evs : list wev; wr_n : nat; wr_errs : list nat }.
+
+(* multiWriteSyncer.Write:
+     nWritten := len(p)
+     for _, w := range ws { n, err := w.Write(p); writeErr = multierr.Append(writeErr, err)
+                            if n < nWritten { nWritten = n } }
+     return nWritten, writeErr                                   [nwritten]: the running minimum *)
+Fixpoint multi_write (ds : list (wbeh * nat)) (nwritten : nat) : wres :=
+  match ds with
+  | [] => mkWR [] nwritten []
+  | (b, d) :: t =>
+      let r := multi_write t (if Nat.ltb (w_n b) nwritten then w_n b else nwritten) in
+      mkWR (WWrite d :: wr_evs r) (wr_n r) ((if w_err b then [d] else []) ++ wr_errs r)
+  end.
+(* multiWriteSyncer.Sync: for _, w := range ws { err = multierr.Append(err, w.Sync()) } *)
+Fixpoint multi_sync (ds : list (wbeh * nat)) : wres :=
+  match ds with
+  | [] => mkWR [] 0 []
+  | (b, d) :: t =>
+      let r := multi_sync t in
+      mkWR (WSync d :: wr_evs r) 0 ((if w_serr b then [d] else []) ++ wr_errs r)
+  end.
+(* CombineWriteSyncers(ws...): no writer: AddSync(io.Discard); otherwise
+   Lock(NewMultiWriteSyncer(ws...)), and NewMultiWriteSyncer of one writer is that writer *)
+Definition comb_write (ds : list (wbeh * nat)) (len : nat) : wres :=
+  match ds with
+  | [] => mkWR [] len []
+  | [(b, d)] => mkWR [WWrite d] (w_n b) (if w_err b then [d] else [])
+  | _ => multi_write ds len
+  end.
+Definition comb_sync (ds : list (wbeh * nat)) : wres :=
+  match ds with
+  | [] => mkWR [] 0 []
+  | [(b, d)] => mkWR [WSync d] 0 (if w_serr b then [d] else [])
+  | _ => multi_sync ds
+  end.
+(* one internal-error line on the logger's error output: fmt.Fprintf(errorOutput, ...)
+   (one Write; its results are discarded) followed by errorOutput.Sync() *)
+Definition err_line (ds2 : list (wbeh * nat)) (len : nat) : list wev :=
+  wr_evs (comb_write ds2 len) ++ wr_evs (comb_sync ds2).
+(* one step on the writer under test.
+   mode 0 / 1 (Open / CombineWriteSyncers): t = 0 one Write of len bytes, else one Sync.
+   mode 2 (the logger of Config.Build, ds1 = OutputPaths, ds2 = ErrorOutputPaths):
+     t = 0 one Info entry: Logger.check reports the caller it cannot find (cl: caller
+           annotation is on; the harness makes it fail) on the error output; ioCore.Write
+           writes the encoded entry to the output (byte count dropped); CheckedEntry.Write
+           reports a non-nil error on the error output ("write error: <err>");
+     else  Logger.Sync = ioCore.Sync = Sync of the output.
+   For an entry [wr_errs] is what the "write error" line names (nothing without an
+   error output). *)
+Definition step_res (mode : Z) (cl : bool) (len : nat) (t : Z) (ds1 ds2 : list (wbeh * nat)) : wres :=
+  if Z.eqb mode 2 then
+    if Z.eqb t 0 then
+      let pre := if cl then err_line ds2 len else [] in
+      let r := comb_write ds1 len in
+      let post := if is_nil (wr_errs r) then [] else err_line ds2 len in
+      mkWR (pre ++ wr_evs r ++ post) 0 (if is_nil ds2 then [] else wr_errs r)
+    else comb_sync ds1
+  else
+    if Z.eqb t 0 then comb_write ds1 len else comb_sync ds1.
+
+Definition is_wwrite (d : nat) (e : wev) : bool := match e with WWrite j => Nat.eqb j d | _ => false end.
+Definition is_wsync (d : nat) (e : wev) : bool := match e with WSync j => Nat.eqb j d | _ => false end.
+Definition wcount (f : wev -> bool) (E : list wev) : nat := length (filter f E).
+
+Definition dec_beh (s : sx) : wbeh := mkW (sx_n (sx_nth s 0)) (sx_bool (sx_nth s 1)) (sx_bool (sx_nth s 2)).
+Definition dec_behs (s : sx) : list wbeh := map dec_beh (sx_l s).
+(* per destination: (Writes received with the full payload, Syncs received) during the step *)
+Definition dest_stats (E : list wev) (ds : list (wbeh * nat)) : sx :=
+  SL (map (fun p => SL [of_nat (wcount (is_wwrite (snd p)) E); of_nat (wcount (is_wsync (snd p)) E)]) ds).
+Definition obs_step (r : wres) (ds1 ds2 : list (wbeh * nat)) : sx :=
+  SL [dest_stats (wr_evs r) ds1; dest_stats (wr_evs r) ds2; of_nat (wr_n r); SL (map of_nat (wr_errs r))].
+Definition model_step (mode : Z) (cl : bool) (len : nat) (st : sx) : sx :=
+  let b1 := dec_behs (sx_nth st 1) in
+  let b2 := dec_behs (sx_nth st 2) in
+  let ds1 := number 0 b1 in
+  let ds2 := number (length b1) b2 in
+  obs_step (step_res mode cl len (sx_z (sx_nth st 0)) ds1 ds2) ds1 ds2.
+Definition model_multi (i : sx) : sx :=
+  SL (map (model_step (sx_z (sx_nth i 1)) (sx_bool (sx_nth i 2)) (sx_n (sx_nth i 3))) (sx_l (sx_nth i 6))).
+
+(* the oracle, written without the loop: whatever the other destinations answer, and
+   whatever happened in the steps before,
+     - every destination of the writer receives every Write once, with the whole payload,
+       and every Sync once;
+     - the returned error names exactly the destinations that failed, in order;
+     - the returned byte count is the smallest any destination reported;
+     - for a built logger: every output destination receives every entry once; every
+       error-output destination receives one line (and one Sync) for the caller that
+       cannot be found and one for an entry some output destination rejected, naming
+       every output destination that rejected it; Sync reaches every output destination. *)
+Definition all_stat {A} (w s : nat) (l : list A) : sx := SL (map (fun _ => SL [of_nat w; of_nat s]) l).
+Definition failing (f : wbeh -> bool) (l : list wbeh) : list sx :=
+  map (fun p => of_nat (snd p)) (filter (fun p => f (fst p)) (number 0 l)).
+Definition expect_step (mode : Z) (cl : bool) (len : nat) (st : sx) : sx :=
+  let t := sx_z (sx_nth st 0) in
+  let b1 := dec_behs (sx_nth st 1) in
+  let b2 := dec_behs (sx_nth st 2) in
+  if Z.eqb t 0 then
+    if Z.eqb mode 2 then
+      let k := ((if cl then 1 else 0) + (if existsb w_err b1 then 1 else 0))%nat in
+      SL [all_stat 1 0 b1; all_stat k k b2; SZ 0; SL (if is_nil b2 then [] else failing w_err b1)]
+    else
+      SL [all_stat 1 0 b1; all_stat 0 0 b2; of_nat (fold_right Nat.min len (map w_n b1)); SL (failing w_err b1)]
+  else
+    SL [all_stat 0 1 b1; all_stat 0 0 b2; SZ 0; SL (failing w_serr b1)].
+Definition spec_multi (i o : sx) : bool :=
+  negb (is_blocked o)
+  && sx_eqb o (SL (map (expect_step (sx_z (sx_nth i 1)) (sx_bool (sx_nth i 2)) (sx_n (sx_nth i 3))) (sx_l (sx_nth i 6)))).
+(* io.Writer: 0 <= n <= len(p) *)
+Definition wf_step (len : nat) (st : sx) : bool :=
+  forallb (fun b => Nat.leb (w_n b) len) (dec_behs (sx_nth st 1)).
+
 (* --- dispatch on the case kind --- *)
 Definition model (i : sx) : sx :=
   match sx_z (sx_nth i 0) with
@@ -713,6 +851,7 @@ Definition model (i : sx) : sx :=
   | 3%Z => model_sreg i
   | 4%Z => model_ereg i
   | 5%Z => model_mix i
+  | 6%Z => model_multi i
   | _ => SL []
   end.
 (* the pre-fix code, for the replay of the [_refuted] witnesses *)
@@ -733,6 +872,7 @@ Definition spec (i o : sx) : bool :=
   | 3%Z => spec_sreg i o
   | 4%Z => spec_ereg i o
   | 5%Z => spec_mix i o
+  | 6%Z => spec_multi i o
   | _ => false
   end.
 (* the cases whose observation is a list with one entry per operation *)
@@ -760,5 +900,6 @@ Definition wf (i : sx) : bool :=
   | 3%Z => forallb wf_op3 (sx_l (sx_nth i 1))
   | 4%Z => true
   | 5%Z => forallb wf_op5 (sx_l (sx_nth i 1))
+  | 6%Z => forallb (wf_step (sx_n (sx_nth i 3))) (sx_l (sx_nth i 6))
   | _ => false
   end.
